@@ -243,6 +243,11 @@ def Dec.overflows (d : Dec) : Bool :=
     else if d.exp ≥ 0 then decide (d.mant * 10 ^ d.exp.toNat ≥ overflowThreshold)
     else decide (d.mant ≥ overflowThreshold * 10 ^ (-d.exp).toNat)
 
+/-- `int(text)` raises `ValueError` (turned into a `JaqalParseError` by the INT action) when the literal
+has more than `sys.get_int_max_str_digits()` = 4300 digits; the sign does not count, leading zeros do.
+BININT is converted with base 2, which has no such limit. -/
+def maxIntDigits : Nat := 4300
+
 /-- Keyword remapping (`IDENTIFIER["register"] = REG`, …), applied to the full matched text. -/
 def keyword? (s : String) : Option Tok :=
   if s = "register" then some .REG else if s = "map" then some .MAP else if s = "let" then some .LET
@@ -270,7 +275,8 @@ inductive Step where
   | token (t : Tok) (rest : List Char) (newlines : Nat)
   /-- a comment -/
   | skip (rest : List Char) (newlines : Nat)
-  /-- NUMBER action raised: value out of range -/
+  /-- the NUMBER action raised ("out of range") or the INT action raised ("Integer literal too long"):
+  a `JaqalParseError` at the token's own line and column -/
   | overflow
   /-- no rule and no literal: `error` callback -/
   | illegal
@@ -294,7 +300,8 @@ def step (cs : List Char) : Step :=
     if Dec.overflows d then .overflow else .token (.NUMBER d) rest 0
   | none =>
   match mInt cs with
-  | some (s, ds, rest) => .token (.INT (intValue s ds)) rest 0
+  | some (s, ds, rest) =>
+    if ds.length > maxIntDigits then .overflow else .token (.INT (intValue s ds)) rest 0
   | none =>
   match mBinInt cs with
   | some (ds, rest) => .token (.BININT (natOfBits ds)) rest 0
